@@ -71,7 +71,12 @@ func (s StudentsT) LogProb(x float64) float64 {
 }
 
 // Mean returns the mean of the probability distribution.
+//
+// The mean is undefined for ν <= 1, and this returns math.NaN().
 func (s StudentsT) Mean() float64 {
+	if s.Nu <= 1 {
+		return math.NaN()
+	}
 	return s.Mu
 }
 
